@@ -190,7 +190,8 @@ def norm(obj):
             pass
         elif isinstance(x, (int, float)) or type(x).__module__ in ("decimal", "fractions", "numbers"):
             kinds.append([list(path), type(x).__name__, x == x and float(x) == x and repr(float(x)) or repr(x)])
-    numbers(obj, ())
+    if obj.get("id") in (XID, OLD20X["id"]):       # the menu objects that carry numbers in untyped slots
+        numbers(obj, ())
     kinds.sort(key=str)          # member order is not content
     if kinds and isinstance(out, dict):
         out["$number-kinds"] = kinds
@@ -275,7 +276,7 @@ def observe(store, part, what):
         except Exception as e:
             obs["tsq"][label] = "EXC:" + type(e).__name__
     obs["keyq"] = {}
-    for label, prop, op, val, _ in (KEY_QUERIES if what != "loaded" else ()):        # a re-loaded store is compared on all / versions / get / types only
+    for label, prop, op, val, _ in (KEY_QUERIES if what in ("mem-final", "fs-final") else ()):        # a re-loaded store is compared on all / versions / get / types only
         try:
             obs["keyq"][label] = sorted(((o["id"], instant_of(o)) for o in store.query([Filter(prop, op, val)])), key=str)
         except Exception as e:
@@ -471,8 +472,8 @@ def _run_history(case, part):
                 compare("mem", observe(mem, part, "mem"), mm, part, step_case, conflicted)
                 compare("fs", observe(fs, part, "fs"), fm, part, step_case, conflicted)
         part.evaluations += 1
-        mobs = observe(mem, part, "mem")
-        fobs = observe(fs, part, "fs")
+        mobs = observe(mem, part, "mem-final")       # type / id queries under every operator: in the state reached at the end of the history (every prefix is a history of its own)
+        fobs = observe(fs, part, "fs-final")
         part.state(("mem", sorted(mm.keys(), key=str), "fs", sorted(fm.keys(), key=str)), nontrivial=len(mm.keys()) > 1)
         compare("mem", mobs, mm, part, case, conflicted)
         compare("fs", fobs, fm, part, case, conflicted)
